@@ -227,6 +227,9 @@ def run_list_prop(prop, tier, seed, only_kinds=None, harness_variant='std', coll
                 j['samples'] = sample_records(j)
             collect.append((jobs, viols))
             return 0
+        # C03 / C18, both tiers: ALL generated behaviours once more on an AddressSanitizer build (native speed)
+        if prop in ('C03', 'C18') and collect is None and not os.environ.get('VERIF_NO_ASAN'):
+            viols += asan_tier(prop, jobs, work)
         # thorough tier of C03 / C18: a sample of the TLC-generated behaviours is executed under Miri (the interpreter is
         # the memory monitor: uninitialised reads, out-of-bounds, use after free, leaks of the cache's own allocations)
         if prop in ('C03', 'C18') and tier == 'thorough' and not os.environ.get('VERIF_NO_MIRI'):
@@ -251,6 +254,48 @@ def run_list_prop(prop, tier, seed, only_kinds=None, harness_variant='std', coll
         return finish(prop, tier, seed, jobs, viols, t0, work, proofs)
     finally:
         work.cleanup()
+
+
+def asan_tier(prop, jobs, work):
+    binary, err = vlib.build_harness_asan()
+    if not binary:
+        log('[%s] WARNING: AddressSanitizer build of the harness failed (tier skipped, recorded in the evidence): %s' % (prop, err[-300:]))
+        jobs[0]['asan'] = dict(built=False)
+        return []
+    flags = ['--audit', '--tok', '--drop', '--no-ro'] + (['--faults'] if prop == 'C18' else [])
+    todo = [j for j in jobs if j.get('driver') and j['variant'] == ('tracked', 'std')]
+
+    def one(j):
+        extra = []
+        ms = j['inst'].get('max_states')
+        if j.get('quick_max_states'):
+            ms = min(ms or 10**9, j['quick_max_states'])
+        if j.get('random_only'):
+            ms = 0
+        if ms is not None:
+            extra += ['--max-states', str(ms)]
+        if j['inst'].get('random') and not j.get('no_random'):
+            extra += ['--random', '%d,%d,%d' % (j['inst']['random'][0], j['inst']['random'][1], 4242)]
+        if j['inst'].get('khtable'):
+            extra += ['--khtable', json.dumps(j['inst']['khtable'])]
+        return j, vlib.asan_run(binary, j['kind'], j['inst']['cfg'], j['inst']['keys'], j['driver'], flags, extra)
+    res = vlib.pool_map(one, todo, max(2, vlib.NCPU - 2))
+    out, tests = [], 0
+    for j, r in res:
+        if r['asan']:
+            out.append(dict(kind=j['kind'], instance=j['inst']['name'], cfg=j['inst']['cfg'], op={'op': 'asan'}, asan=r['tail'],
+                            record={'ret': 'AddressSanitizer reported a memory error'}))
+        elif r['rc'] not in (0, 124):
+            if r['rc'] < 0:
+                out.append(dict(kind=j['kind'], instance=j['inst']['name'], cfg=j['inst']['cfg'], op={'op': 'asan-crash'}, crash_signal=-r['rc'],
+                                asan=r['tail'], record={'ret': 'harness crashed under the AddressSanitizer build'}))
+            else:
+                raise ToolError('ASan harness run failed (rc=%s): %s' % (r['rc'], r['tail'][-600:]))
+        if r['stats']:
+            tests += r['stats'].get('tests', 0)
+    log('[%s] ASan tier: %d tests on the AddressSanitizer build, %d memory errors' % (prop, tests, len(out)))
+    jobs[0]['asan'] = dict(built=True, tests=tests, errors=len(out), runs=len(res))
+    return out
 
 
 def miri_tier(prop, jobs, work, tests_per_shard=120, budget_s=900):
@@ -354,6 +399,7 @@ def finish(prop, tier, seed, jobs, viols, t0, work, proofs=None):
         instances=[dict(name=j['tag'], kind=j['kind'], tlc=j['tlc'], exec=(j['exec']['stats'] or {}), shards=len(j.get('shards', [])))
                    for j in jobs],
         miri=[j['miri'] for j in jobs if j.get('miri')],
+        asan=[j['asan'] for j in jobs if j.get('asan')],
         heap_model=[j['heap_model'] for j in jobs if j.get('heap_model')],
         events_by_op_and_result=by_kind,
         violations_seen=[dict(kind=d.get('kind'), instance=d.get('instance'), op=d.get('op'), path=d.get('path')) for d in viols[:20]],
